@@ -131,6 +131,42 @@ func checkC16(c *Ctx) {
 			"the wrapper is built exactly on the lazy branch", fmt.Sprintf("wrapper %s built %d times on the lazy branch and %d times elsewhere", s.wrapName, nWrapLazy, nWrapElse))
 		c.check(nEvalLazy == wantEvalLazy && nEvalElse == 1, "C16-SITES", s.fn, "strict positions via "+s.evalName, call.Pos(),
 			"every non-lazy position is evaluated/pushed exactly once and lazy ones are not evaluated", fmt.Sprintf("%s occurs %d times on the lazy branch and %d times on the strict path", s.evalName, nEvalLazy, nEvalElse))
+		// on the run-time source route, everything pushed on the lazy branch is the source wrapper: a value wrapper
+		// (already forced) for "literals" hands the callee an unevaluated expression as if it were its value
+		if s.fn == "Zlisp.PrepareCallExprArgs" && pushExpr != nil {
+			okPush := true
+			var at token.Pos
+			for _, b := range f.Blocks {
+				if !lazyBlk.Dominates(b) {
+					continue
+				}
+				for _, in := range b.Instrs {
+					pc, ok := in.(*ssa.Call)
+					if !ok || pc.Call.StaticCallee() != pushExpr || len(pc.Call.Args) < 2 {
+						continue
+					}
+					src := false
+					for _, leaf := range phiLeaves(pc.Call.Args[1]) {
+						v := leaf
+						if mi, ok := v.(*ssa.MakeInterface); ok {
+							v = mi.X
+						}
+						if cl, ok := v.(*ssa.Call); ok && cl.Call.StaticCallee() == newSrc {
+							src = true
+						} else {
+							src = false
+							break
+						}
+					}
+					if !src {
+						okPush, at = false, pc.Pos()
+					}
+				}
+			}
+			c.check(okPush, "C16-SITES", s.fn, "lazy positions receive the source wrapper only", orPos(at, call.Pos()),
+				"every value pushed on the lazy branch is the result of NewSourceLazyArg",
+				"on the lazy branch something other than the source wrapper is pushed (a value wrapper marked as forced, or the raw expression): an argument such as the array literal [a (+ a 1) (bump)] reaches the callee unevaluated and forcing it returns the literal, its elements never read the caller's scope nor run their effects")
+		}
 		// the lazy branch must not fall through into the strict path: it ends by continuing the loop
 		falls := false
 		for _, b := range f.Blocks {
